@@ -558,7 +558,12 @@ class Sandbox:
         """ Turn off any patches, store output """
         self._stop_patches()
         current_stdout = self._current_stdout.pop()
-        self.append_output(current_stdout.getvalue(), context)
+        try:
+            output = current_stdout.getvalue()
+        except ValueError:
+            # The student closed their standard output; nothing can be read back
+            output = ""
+        self.append_output(output, context)
 
     # Patching Functionality
     def _start_patches(self, *patches):
